@@ -271,6 +271,14 @@ class Engine:
             self._record(ob)
             self.assume(goal)
             return
+        if kind == 'ensures' and _has_quant(g):
+            # a clause that a callee's contract already states about the very same values (a pass-through postcondition)
+            for fk, fv in self.st.ghost.get('facts', {}).items():
+                if fk.startswith('call:') and any(_alpha_eq(h, goal) for h in (fv if isinstance(fv, list) else [fv])):
+                    ob.status, ob.backend = 'unsat', 'simplify'
+                    self._record(ob)
+                    self.assume(goal)
+                    return
         self._discharge(ob)
         self._record(ob)
         self.assume(goal)
@@ -765,7 +773,9 @@ class Engine:
             if cell is not None:
                 self.allowed_mod.add(cell['ident'])
         for r in list(contract.get('requires', [])) + list(case.get('requires', [])):
-            self.assume(self.spec_bool(r, env))
+            t_req = self.spec_bool(r, env)
+            self.assume(t_req)
+            self.st.ghost.setdefault('facts', {}).setdefault('requires', []).append(t_req)
         if not self.feasible():
             raise Infeasible()
         self.vacuity_ok = True
